@@ -969,7 +969,7 @@ impl Prop for C15 {
         ]
     }
     fn cases(&self, tier: Tier) -> u32 {
-        tier.pick(400, 3000)
+        tier.pick(600, 3000)
     }
     fn min_nontrivial(&self, tier: Tier) -> usize {
         tier.pick(600, 6000)
